@@ -127,6 +127,16 @@ func (vn *varIncr[T]) Set(v T) {
 		graph.setDuringStabilizationMu.Unlock()
 		return
 	}
+	// a value still pending from the pass that is ending (this Set comes from one of its
+	// update handlers) is older than this one, and would otherwise be applied over it when
+	// the pass ends: the last write wins.
+	vn.pendingMu.Lock()
+	if vn.setDuringStabilization {
+		var zero T
+		vn.setDuringStabilizationValue = zero
+		vn.setDuringStabilization = false
+	}
+	vn.pendingMu.Unlock()
 	vn.value = v
 	if vn.n.isNecessary() {
 		graph.SetStale(vn)
